@@ -395,6 +395,13 @@ def run(rep, tier, seed, parts=None):
                 res["state_keys"].append(st)
             if any(op in EDITS for op in h):
                 res["n_nontrivial"] = res.get("n_nontrivial", 0) + 1
+            ne = sum(1 for op in h if op in EDITS)
+            first_edit = next((i for i, op in enumerate(h) if op in EDITS), None)
+            kk = "histories:%d-edits,%s" % (ne, "no-edit" if first_edit is None else ("call-before-first-edit" if first_edit > 0 else "edit-first"))
+            res["outcomes"][kk] = res["outcomes"].get(kk, 0) + 1
+            if st is not None:
+                kc = "end-content-state:%s" % "".join(str(b) for b in st[0])
+                res["outcomes"][kc] = res["outcomes"].get(kc, 0) + 1
         res["parts"]["depth%d" % len(batch[0])] = len(batch)
         return res
 
